@@ -105,10 +105,13 @@ impl Regex {
     /// provides access to matched subgroups.
     pub fn analyze<'a>(&'a self, haystack: &str) -> Result<AnalyzeIter<'a>, Error> {
         self.check_matches_empty_string()?;
-        Ok(AnalyzeIter::new(
-            &self.re_program.pattern,
-            self.matcher(haystack),
-        ))
+        // a literal ('q' flag) pattern has no groups, whatever it looks like
+        let pattern: &[char] = if self.re_program.flags.is_literal() {
+            &[]
+        } else {
+            &self.re_program.pattern
+        };
+        Ok(AnalyzeIter::new(pattern, self.matcher(haystack)))
     }
 
     // TODO: continue translating ARegexIterator
